@@ -118,17 +118,24 @@ def check_seidel(rows, g, out, rtol=1e-7):
     ul = g['ul']
     K = g['nl'] * g['ul']
 
-    def close(a, b):
+    def close(a, b, scale=1.0):
+        # scale: magnitude of the family the two numbers belong to (a lens with a small aperture and field has
+        # contributions far below 1, and an absolute floor of rtol would accept a term that is silently zeroed)
         if not (math.isfinite(a) and math.isfinite(b)):
             return (math.isnan(a) and math.isnan(b)) or a == b
-        return abs(a - b) <= rtol * (1 + abs(a) + abs(b))
+        return abs(a - b) <= rtol * (scale + abs(a) + abs(b))
+
+    def mag(*lists):
+        v = [abs(x) for l in lists for x in l if isinstance(x, float) and math.isfinite(x)]
+        return max(v) if v else 0.0
     refr = all(r.get('refl') or abs(r['n1'] * r['ua1'] - (r['n0'] * r['ua0'] - r['ya'] * r['c'] * (r['n1'] - r['n0']))) < 1e-9 for r in rows)
     first_mirror = next((k + 1 for k, r in enumerate(rows) if r.get('refl')), None)
     if g['inv'] != 0 and K != 0 and refr:
         w = welford(rows, g)
         for nm in ('TSC', 'CC', 'TAC', 'TPC', 'DC', 'TAchC', 'TchC'):
+            sc = mag(fam[nm], w[nm])
             for k, (a, b) in enumerate(zip(fam[nm], w[nm])):
-                if math.isfinite(b) and not close(a, b):
+                if math.isfinite(b) and not close(a, b, sc):
                     bad.append({'kind': 'seidel', 'quantity': nm, 'surface': k + 1, 'implementation': a, 'classical': b,
                                 'first_mirror': first_mirror})
                     break
@@ -140,16 +147,16 @@ def check_seidel(rows, g, out, rtol=1e-7):
                      (fam['AC'], [-x / ul for x in fam['TAC']], 'AC=-TAC/u'),
                      (fam['PC'], [-x / ul for x in fam['TPC']], 'PC=-TPC/u'),
                      (fam['LchC'], [-x / ul for x in fam['TAchC']], 'LchC=-TAchC/u')):
-        if len(a) != len(b) or not all(close(x, y) for x, y in zip(a, b)):
+        if len(a) != len(b) or not all(close(x, y, mag(a, b)) for x, y in zip(a, b)):
             bad.append({'kind': 'seidel-identity', 'quantity': nm})
     for j, nm in enumerate(('TSC', 'CC', 'TAC', 'TPC', 'DC')):
         s = -sum(fam[nm]) * K * 2
-        if not close(fam['S'][j], s):
+        if not close(fam['S'][j], s, mag(fam[nm]) * abs(K) * 2):
             bad.append({'kind': 'seidel-identity', 'quantity': f'S[{j}] = -2 n u sum({nm})'})
     for nm in FAMS:
         a = out['accessors'].get(nm)
         if isinstance(a, tuple) or a is None:
             bad.append({'kind': 'seidel-identity', 'quantity': f'accessor {nm} raised'})
-        elif len(a) != len(fam[nm]) or not all(close(x, y) for x, y in zip(a, fam[nm])):
+        elif len(a) != len(fam[nm]) or not all(close(x, y, 0.0) for x, y in zip(a, fam[nm])):
             bad.append({'kind': 'seidel-identity', 'quantity': f'accessor {nm} != third_order component'})
     return bad
